@@ -392,7 +392,7 @@ Proof.
     cbn [arun astep]. rewrite Gp. cbv zeta. cbn [queueLen invokeNum resp]. change (k_out (set_ret c0 (now s))) with (k_out c0). rewrite Ho, Hokc. cbn [andb].
     assert (Hnr : nret (mkst (now s) (upd (calls s) i (set_ret c0 (now s))) (rcvs s) (queueLen s) (invokeNum s - 1)%Z (resp s) (conn_open s) (lock s) (sendq s) (wire s) (sent s) (tr s)) = (nret s + 1)%Z).
     { nret_new Heqo. cbn. reflexivity. }
-    destruct o as [p| | |]; cbn [cls_of].
+    destruct o as [p| | | |]; cbn [cls_of].
     + (* reply *)
       assert (Hoko : existsb (fun x : N * N => let '(i0, py) := x in (i0 =? aid (aget a i)) && (py =? p)) (sends a) = true).
       { apply existsb_exists. exists (id_of i, p). split; [rewrite (s_sends s a HS); apply O2; exact Ho|]. rewrite Gi, !N.eqb_refl. reflexivity. }
@@ -410,6 +410,9 @@ Proof.
       eapply (Sim_set s _ a i c0 (set_ret c0 (now s))); eauto; try reflexivity; pcs; try congruence; cbn [ph aid retd_at_post]; try (intros; discriminate); try (rewrite Hnr; lia).
       intros id [<-|Hin]; [right; repeat split; auto|left; exact Hin].
     + (* one-way *)
+      eexists. split; [reflexivity|].
+      eapply (Sim_set s _ a i c0 (set_ret c0 (now s))); eauto; try reflexivity; pcs; try congruence; cbn [ph aid retd_at_post]; try (intros; discriminate); try (rewrite Hnr; lia); try (intros id Hin; left; exact Hin).
+    + (* cancelled: reported as the timeout error *)
       eexists. split; [reflexivity|].
       eapply (Sim_set s _ a i c0 (set_ret c0 (now s))); eauto; try reflexivity; pcs; try congruence; cbn [ph aid retd_at_post]; try (intros; discriminate); try (rewrite Hnr; lia); try (intros id Hin; left; exact Hin).
   - (* LSendTake: the peer reads a request *)
@@ -451,7 +454,41 @@ Proof.
     inv_step H; (exists a; split; [reflexivity|]; eapply Sim_frame; eauto).
   - (* LIdleClose *)
     inv_step H; (exists a; split; [reflexivity|]; eapply Sim_frame; eauto).
+  - (* LCancel *)
+    inv_step H; (exists a; split; [reflexivity|];
+      match goal with Hk : nth_error (calls s) ?i = Some ?k |- Sim ?s1 _ =>
+        match s1 with context [upd (calls s) i ?x] =>
+          apply (Sim_same_phase s s1 a i k x HS Hk); [reflexivity|pcs; splitifs; fields; usepc; reflexivity|congruence|reflexivity|reflexivity]
+        end end).
+  - (* LFilterErr: the same observation points as a full invoke queue *)
+    inv_step H. cbn [events_of].
+    pose proof (s_get s a HS _ _ Heqo) as [Gp [Gi Gc]]. rewrite Heqp in Gp. cbn [phase_of] in Gp.
+    assert (Hfresh : (id_of i =? 0) || id_used a (id_of i) = false).
+    { rewrite id_of_nz. cbn [orb]. destruct (id_used a (id_of i)) eqn:E; [|reflexivity]. exfalso.
+      unfold id_used in E. apply existsb_exists in E. destruct E as [[cc kk] [Hin Hm]]. cbn [snd] in Hm.
+      pose proof (aget_in a cc kk (s_keys s a HS) Hin) as Hg. pose proof (s_dom s a HS _ _ Hin) as Hlt.
+      apply nth_error_Some in Hlt. destruct (nth_error (calls s) cc) as [kc|] eqn:Hkc; [|congruence].
+      pose proof (s_get s a HS _ _ Hkc) as [Cp [Ci _]]. rewrite Hg in Cp, Ci.
+      destruct (ph kk) eqn:Ek; try discriminate Hm; rewrite <- Cp in Ci; cbn beta iota in Ci; apply N.eqb_eq in Hm; rewrite Ci in Hm;
+        apply id_of_inj in Hm; subst cc; rewrite Heqo in Hkc; inversion Hkc; subst kc; rewrite Heqp in Cp; discriminate Cp. }
+    (* an intermediate picture in which the call stands registered *)
+    set (smid := with_calls s (upd (calls s) i (set_pc c0 Reg))).
+    assert (Smid : Sim smid (mkast (aset a i (mkacall PhPre (id_of i) 0)) (started a) (returned a) (recvd a) (sends a) (errored a))).
+    { eapply (Sim_set s smid a i c0 (set_pc c0 Reg)); eauto; try reflexivity; pcs; try congruence.
+      + unfold smid, with_calls. nret_new Heqo. cbn. lia.
+      + unfold smid, with_calls. nret_new Heqo. cbn. rewrite (s_returned s a HS). lia. }
+    assert (Hkm : nth_error (calls smid) i = Some (set_pc c0 Reg)) by (unfold smid, with_calls; cbn [calls]; eapply nth_upd_eq; eauto).
+    cbn [arun astep]. rewrite Gp, Hfresh. cbn [arun astep]. rewrite aget_aset_eq. cbn [ph aid].
+    eexists. split; [reflexivity|].
+    match goal with |- Sim ?s1 _ =>
+      eapply (Sim_set smid s1 _ i (set_pc c0 Reg) (set_full c0)); [exact Smid|exact Hkm|unfold smid, with_calls; cbn [calls]; rewrite upd_upd; reflexivity
+        |reflexivity|reflexivity|pcs; congruence|reflexivity|reflexivity| | | |] end; cbn [retd_at_post returned errored].
+    + intros _. unfold nret, with_calls; cbn [calls]. rewrite (nret_upd s i c0 _ Heqo); [|unfold is_ret; rewrite Heqp; reflexivity]. cbn. rewrite (s_returned s a HS). lia.
+    + unfold nret, smid, with_calls; cbn [calls]. rewrite !(nret_upd s i c0 _ Heqo); try (unfold is_ret; rewrite Heqp; reflexivity). cbn. lia.
+    + unfold nret, with_calls; cbn [calls]. rewrite (nret_upd s i c0 _ Heqo); [|unfold is_ret; rewrite Heqp; reflexivity]. cbn. rewrite (s_returned s a HS). lia.
+    + intros id Hin. left. exact Hin.
 Qed.
+
 
 
 Lemma sim_run : forall c ls s a s', reach c s -> Sim s a -> run c s ls = Some s' ->
